@@ -96,6 +96,18 @@ func C20_Simple() {
 	// parsing is deterministic
 	back2 := interfaces.ToConsensusMessage(raw)
 	env.Assert("C20.reparse_equal", env.And(back2 != nil, env.EqBytes(back2.Raw(), back.Raw())))
+	// ... and depends on the bytes only, not on the history of the envelope they travel in: the same envelope
+	// object (by pointer and as a by-value copy) carrying the content of another message parses as that message
+	h2 := primitives.BlockHeight(env.NondetU64("height2"))
+	v2 := primitives.View(env.NondetU64("view2"))
+	other := e.f.CreateCommitMessage(h2, v2, hash).ToConsensusRawMessage()
+	cp := *raw
+	raw.Content, raw.Block = other.Content, other.Block
+	cp.Content, cp.Block = other.Content, other.Block
+	for _, envl := range []*interfaces.ConsensusRawMessage{raw, &cp} {
+		m := interfaces.ToConsensusMessage(envl)
+		env.Assert("C20.parse_depends_on_bytes_only", m != nil && m.MessageType() == protocol.LEAN_HELIX_COMMIT && m.BlockHeight() == h2 && m.View() == v2)
+	}
 	env.Reach("C20.simple.done")
 }
 
